@@ -227,6 +227,37 @@ def make_rules(X, case, attrs=None):
     return rules
 
 
+class _Snap:
+    """an object as it was when the reader produced it: attribute values are copied at that moment, origins are asked from
+    the object itself"""
+
+    def __init__(self, obj, names):
+        import copy
+        self.__dict__["_obj"] = obj
+        self.__dict__["_vals"] = {n: copy.deepcopy(getattr(obj, n)) for n in names}
+
+    def __getattr__(self, name):
+        if name in self._vals:
+            return self._vals[name]
+        return getattr(self._obj, name)
+
+    def __repr__(self):
+        return "snapshot of " + repr(self._obj)
+
+
+def _use_up(obj, names):
+    """what a caller may do with an object it was given: its list / set / dict values are the caller's"""
+    for n in names:
+        v = getattr(obj, n, None)
+        if isinstance(v, list):
+            v.append("caller's addition")
+            v.reverse()
+        elif isinstance(v, set):
+            v.add("caller's addition")
+        elif isinstance(v, dict):
+            v["caller's addition"] = 1
+
+
 def evaluate(case):
     import ak.xlsread as X
     f = []
@@ -246,6 +277,29 @@ def evaluate(case):
         rules = make_rules(X, case)
         if entry == "iter_table":
             got = list(X.iter_table(ws, Obj, rules, **kw))
+        elif entry == "iter_table_values_used":
+            # lazy reading; the caller changes the list / set / dict values of every object as soon as it gets it (they are
+            # its own) - what was produced is judged as it was at that moment; then the sheet is read again
+            names = [a["name"] for a in attrs]
+            first = []
+            for o in X.iter_table(ws, Obj, rules, **kw):
+                if o is not None:
+                    first.append(_Snap(o, names))
+                    _use_up(o, names)
+                else:
+                    first.append(None)
+            got = []
+            for o in X.iter_table(ws, Obj, rules, **kw):
+                got.append(None if o is None else _Snap(o, names))
+                if o is not None:
+                    _use_up(o, names)
+            if len(first) == len(got):
+                # (the first pass is judged too: where the two passes differ, report the first one)
+                for i, (x, y) in enumerate(zip(first, got)):
+                    if (x is None) != (y is None) or (x is not None and any(x._vals[n] != y._vals[n] for n in names)):
+                        got = first
+                        break
+            classes.add("values_of_produced_objects_changed_by_the_caller")
         elif entry == "read_table":
             got = X.read_table(ws, Obj, rules, **kw)
         elif entry == "mixin":
@@ -530,7 +584,8 @@ def st_case(draw):
             extra.insert(0, {"title": "", "conv": "str", "attr": None})
         cols = cols[:p2] + extra + cols[p2:]
     second = None
-    entry = draw(st.sampled_from(["iter_table", "read_table", "read_table", "mixin", "two_readers", "mixin_subclass", "mixin_interleaved"]))
+    entry = draw(st.sampled_from(["iter_table", "read_table", "read_table", "mixin", "two_readers", "mixin_subclass", "mixin_interleaved",
+                                   "iter_table_values_used"]))
     if entry == "two_readers":
         # second object class reads (as plain str) some of the same known columns
         cand = [c for c in cols if c["attr"] is not None]
